@@ -60,7 +60,14 @@ class SeqEngine(Engine):
         ['with', 's1', [['with', '1x', [['curscope']]], ['curscope']]], ['curscope'],
         ['with', 's1/s2', [['with', {}, []]]], ['curscope'], ['with', 's1', [['with', {'raises': 1}, []], ['curscope']]], ['curscope'],
         ['with', ['a', 'b b'], [['curscope']]], ['curscope'], ['with', '', [['curscope']]],
-        ['callvia', 's1/s2/f', [], []], ['curscope'], ['dumpcalls']]}]
+        ['callvia', 's1/s2/f', [], []], ['curscope'], ['dumpcalls']]},
+            {'regs': [f], 'ops': [
+                ['with', 's1', [['with', 's2', [['with', {'captured': 1, 'value': ['s1']}, [['curscope']]], ['curscope'], ['call', 'm.f', [], []]]],
+                                ['curscope'],
+                                ['with', {'captured': 0, 'value': ['s1']}, [['with', 's3', [['with', {'captured': 1, 'value': ['s1']}, [['raise']]],
+                                                                                           ['curscope']]], ['curscope']]],
+                                ['curscope']]],
+                ['curscope'], ['dumpcalls']]}]
 
   def gen_arg(self, rng):
     r = rng.random()
@@ -80,12 +87,21 @@ class SeqEngine(Engine):
       return [rng.choice(ginm.SCOPES), rng.choice(BAD)]
     return {} if rng.random() < 0.5 else {'raises': 1}      # wrong type; or a value whose inspection itself raises
 
-  def gen_body(self, rng, regs, depth):
+  def gen_body(self, rng, regs, depth, encl=()):
+    """encl: the scopes yielded by the enclosing VALID blocks, outermost first"""
     ops = []
     for _ in range(rng.randint(1, 4)):
       r = rng.random()
       if r < 0.45 and depth < 6:
-        ops.append(['with', self.gen_arg(rng), self.gen_body(rng, regs, depth + 1)])
+        if encl and rng.random() < 0.15:
+          # `with config_scope(..) as s: ... with config_scope(s):` -- the list object an enclosing block yielded is entered
+          # again while it is still active (what a scoped reference does when its configurable is re-entered)
+          k = rng.randrange(len(encl))
+          arg = {'captured': k, 'value': list(encl[len(encl) - 1 - k])}
+        else:
+          arg = self.gen_arg(rng)
+        new, ok = compose(list(encl[-1]) if encl else [], arg['value'] if isinstance(arg, dict) and 'captured' in arg else 5 if isinstance(arg, dict) else arg)
+        ops.append(['with', arg, self.gen_body(rng, regs, depth + 1, tuple(encl) + (tuple(new),)) if ok else self.gen_body(rng, regs, depth + 1, encl)])
       elif r < 0.6:
         ops.append(['curscope'])
       elif r < 0.8:
@@ -131,7 +147,7 @@ class SeqEngine(Engine):
                       (t['op'], t['depth'], b['scope'], a['scope'], 'raised ' + t['exc'] if t['exc'] else 'returned')))
       if t['kind'] == 'with':
         arg = t['op'][1]
-        new, ok = compose(b['scope'], 5 if isinstance(arg, dict) else arg)
+        new, ok = compose(b['scope'], arg['value'] if isinstance(arg, dict) and 'captured' in arg else 5 if isinstance(arg, dict) else arg)
         tags.append('with:' + ('ok' if ok else 'invalid') + (':raised' if t['exc'] else ''))
         if not ok:
           if t['obs_end'] != t['obs_start'] or t['exc'] not in ('ValueError', 'TypeError'):
